@@ -19,7 +19,7 @@ pub fn teardown_real<F: Fl, const SENDERS_FIRST: bool, const RX0_FIRST: bool>(ca
     let a0 = al().live;
     {
         let mut w = World::<F>::new(cap);
-        set_world::<F>(&mut w);
+        set_world::<F>(&mut *w);
         if with_stream {
             w.rx[1] = Some(F::add_stream(w.rx[0].as_ref().unwrap()));
         }
@@ -187,7 +187,7 @@ pub fn reclaim_protocol_d<const IDLE: bool, const THIRD: bool, const VAR: u8, co
     } else {
         kani::cover!(reclaimed >= preload as u32, "a reclamation cycle freed the retired memory");
     }
-    std::mem::forget(w);
+    let _ = &w; // ManuallyDrop: never dropped
 }
 
 crate::mq_harness_real!(c16_protocol_o0, hk_c16_protocol_o0, Runner<MemProg<false, false, 0>, 0>, reclaim_protocol::<false, 0>(20, 2));
@@ -305,7 +305,7 @@ pub fn wholequeue_drop<F: Fl, const OUTER: usize>(preload: usize, budget: u8, ki
     payload::reset();
     sched::configure(1, budget, kinds, 4);
     let mut w = World::<F>::new(2);
-    set_world::<F>(&mut w);
+    set_world::<F>(&mut *w);
     w.rx[1] = Some(F::add_stream(w.rx[0].as_ref().unwrap()));
     w.rx_stream[1] = 1;
     F::preload_retirements(w.tx[0].as_ref().unwrap(), preload);
@@ -318,7 +318,7 @@ pub fn wholequeue_drop<F: Fl, const OUTER: usize>(preload: usize, budget: u8, ki
     run_concurrent::<WqDrop<F>, OUTER>();
     kani::cover!(sched::st().injected >= 3, "three operations ran inside the removal");
     kani::cover!(al().total_frees - frees0 >= preload as u32, "a reclamation cycle freed the pre-loaded batch");
-    std::mem::forget(w);
+    let _ = &w; // ManuallyDrop: never dropped
 }
 
 pub const PTR_AND_LOCK_KINDS: u16 = (1 << 3) | (1 << 4) | (1 << 9) | (1 << 10) | (1 << 11) | (1 << 13);
